@@ -11,7 +11,7 @@
   * `live_store_reachable`        — the store of a live id is a reachable store whose titles are tokenised texts
     (hence `StoreInv`, `StoreIndexInv`, `TextOK`, `TokInv`);
   * `addedOf`, `limitFrom`, `markersFrom`, `store_fields` — records, limit and markers of that store read off
-    the call list;
+    the call list (`addedOf`: the `add_record` calls since the last `clearStore` = `using_store(id, |s| s.clear())`);
   * `buffer_after_search`, `run_quiet_results` — what the result buffer holds.
 -/
 import LucidProofs.C01
@@ -46,13 +46,14 @@ theorem EnvsOK.query {envs : Nat → Env} (h : EnvsOK envs) (l : Nat) (s : List 
 
 /-! ### the calls addressed to an id since its creation -/
 
-/-- the call neither destroys nor (re-)creates `id` -/
+/-- the call neither destroys nor (re-)creates `id` (`clearStore id` keeps the id: same store entry, emptied) -/
 def RegOp.keeps (id : Nat) : RegOp → Bool
   | .create j _ => j != id
   | .destroy j => j != id
   | _ => true
 
-/-- the call neither destroys nor (re-)creates `id` nor runs a search on it -/
+/-- the call neither destroys nor (re-)creates `id` nor runs a search on it (`clearStore id` is quiet: it leaves the
+    result buffer alone) -/
 def RegOp.quiet (id : Nat) : RegOp → Bool
   | .create j _ => j != id
   | .destroy j => j != id
@@ -69,6 +70,7 @@ def RegOp.toStoreOp? (P : Prog) (E : Env) (id : Nat) : RegOp → Option StoreOp
   | .addRecord j recId title rating => if j = id then some (.add recId (tokenizeRecord P E title) rating) else none
   | .setLimit j n => if j = id then some (.setLimit n) else none
   | .runSearch j q => if j = id then some (.search (tokenizeQuery P E q)) else none
+  | .clearStore j => if j = id then some .clear else none
   | _ => none
 
 /-- the calls of `post` addressed to `id`, as operations of a stand-alone store -/
@@ -100,14 +102,22 @@ theorem toStoreOp?_eq_search (P : Prog) (E : Env) (id : Nat) (op : RegOp) (q : T
   cases op <;> simp only [RegOp.toStoreOp?, reduceCtorEq, false_and, exists_false] <;>
     (try split) <;> simp_all <;> grind
 
-theorem toStoreOp?_ne_clear (P : Prog) (E : Env) (id : Nat) (op : RegOp) : op.toStoreOp? P E id ≠ some .clear := by
-  cases op <;> simp only [RegOp.toStoreOp?] <;> (try split) <;> simp
+/-- a `StoreOp.clear` in the projection comes from a `clearStore id` call (`using_store(id, |s| s.clear())`) and
+    from nothing else -/
+theorem toStoreOp?_eq_clear (P : Prog) (E : Env) (id : Nat) (op : RegOp) :
+    op.toStoreOp? P E id = some .clear ↔ op = .clearStore id := by
+  cases op <;> simp only [RegOp.toStoreOp?, reduceCtorEq] <;> (try split) <;> simp_all
 
-theorem clear_not_mem_storeOpsOf (P : Prog) (E : Env) (id : Nat) (post : List RegOp) :
-    StoreOp.clear ∉ storeOpsOf P E id post := by
-  intro h
-  obtain ⟨op, _, hop⟩ := List.mem_filterMap.mp h
-  exact toStoreOp?_ne_clear P E id op hop
+theorem clear_mem_storeOpsOf (P : Prog) (E : Env) (id : Nat) (post : List RegOp) :
+    StoreOp.clear ∈ storeOpsOf P E id post ↔ RegOp.clearStore id ∈ post := by
+  unfold storeOpsOf
+  rw [List.mem_filterMap]
+  constructor
+  · rintro ⟨op, hm, hop⟩
+    rw [(toStoreOp?_eq_clear P E id op).mp hop] at hm
+    exact hm
+  · intro hm
+    exact ⟨_, hm, (toStoreOp?_eq_clear P E id _).mpr rfl⟩
 
 theorem add_mem_storeOpsOf (P : Prog) (E : Env) (id : Nat) (post : List RegOp) (rid : Nat) (t : Text) (rating : Nat) :
     StoreOp.add rid t rating ∈ storeOpsOf P E id post ↔
@@ -145,6 +155,7 @@ theorem projStep_eq (P : Prog) (envs : Nat → Env) (id : Nat) (p : Option (Nat 
   | addRecord j a b c => by_cases h : j = id <;> cases p <;> simp [projStep, RegOp.target, RegOp.toStoreOp?, h]
   | setLimit j n => by_cases h : j = id <;> cases p <;> simp [projStep, RegOp.target, RegOp.toStoreOp?, h]
   | runSearch j q => by_cases h : j = id <;> cases p <;> simp [projStep, RegOp.target, RegOp.toStoreOp?, h]
+  | clearStore j => by_cases h : j = id <;> cases p <;> simp [projStep, RegOp.target, RegOp.toStoreOp?, h]
 
 theorem projStep_keeps (P : Prog) (envs : Nat → Env) (id lang : Nat) (acc : List StoreOp) (op : RegOp)
     (hk : op.keeps id = true) :
@@ -211,6 +222,7 @@ theorem liveShape_step (P : Prog) (envs : Nat → Env) (id : Nat) (done : List R
     | addRecord j a b c => exact absurd rfl hk
     | setLimit j n => exact absurd rfl hk
     | runSearch j q => exact absurd rfl hk
+    | clearStore j => exact absurd rfl hk
 
 theorem liveShape_run (P : Prog) (envs : Nat → Env) (id : Nat) (rest : List RegOp) :
     ∀ (done : List RegOp) (p : Option (Nat × List StoreOp)), LiveShape P envs id done p →
@@ -284,15 +296,16 @@ theorem storeFacts_reachable (S : Sorter) (E : Env) (hK : E.K = Gen.srcConsts)
 /-- **The store of a live id is a reachable store whose every title is a tokenised text.** After any valid call
     sequence, if the store map holds `(lang, st)` for `id`, then `st` is `Store::new()` followed by the stand-alone
     operations `sops` = the projection of the calls addressed to `id` since its creation; every `add` among them
-    carries a title `tokenize_record(lang, s)`, none of them is a `clear`; hence `st` satisfies the store invariants
-    and every stored title is a well-formed tokenised text. -/
+    carries a title `tokenize_record(lang, s)`, a `clear` among them comes from a `clearStore id` call
+    (`using_store(id, |s| s.clear())`); hence `st` satisfies the store invariants and every stored title is a
+    well-formed tokenised text. -/
 theorem live_store_reachable (S : Sorter) (envs : Nat → Env) (hE : EnvsOK envs) (ops : List RegOp)
     (hv : Registry.allValid S Gen.srcProg envs Registry.empty ops = true) (id lang : Nat) (st : Store)
     (h : amGet (Registry.empty.run S Gen.srcProg envs ops).stores id = some (lang, st)) :
     ∃ sops, proj Gen.srcProg envs id ops = some (lang, sops) ∧
       st = Store.run S Gen.srcConsts Gen.srcScoreOrder (Store.new Gen.srcConsts) sops ∧
       (∀ rid t rating, StoreOp.add rid t rating ∈ sops → ∃ s, t = tokenizeRecord Gen.srcProg (envs lang) s) ∧
-      StoreOp.clear ∉ sops ∧ StoreFacts S (envs lang) st := by
+      (StoreOp.clear ∈ sops → RegOp.clearStore id ∈ ops) ∧ StoreFacts S (envs lang) st := by
   have hiso := (C20_isolation S Gen.srcProg envs ops hv id).1
   rw [h] at hiso
   cases hp : proj Gen.srcProg envs id ops with
@@ -302,13 +315,14 @@ theorem live_store_reachable (S : Sorter) (envs : Nat → Env) (hE : EnvsOK envs
     rw [hp] at hiso
     simp only [Option.map_some, Option.some.injEq, Prod.mk.injEq] at hiso
     obtain ⟨rfl, rfl⟩ := hiso
-    obtain ⟨pre, post, _, _, rfl⟩ := proj_some_decomp Gen.srcProg envs id ops lang _ hp
+    obtain ⟨pre, post, hshape, _, rfl⟩ := proj_some_decomp Gen.srcProg envs id ops lang _ hp
     have hops : ∀ rid t rating, StoreOp.add rid t rating ∈ storeOpsOf Gen.srcProg (envs lang) id post →
         ∃ s, t = tokenizeRecord Gen.srcProg (envs lang) s := by
       intro rid t rating hm
       obtain ⟨title, _, rfl⟩ := (add_mem_storeOpsOf _ _ _ _ _ _ _).mp hm
       exact ⟨title, rfl⟩
-    exact ⟨_, rfl, rfl, hops, clear_not_mem_storeOpsOf _ _ _ _,
+    exact ⟨_, rfl, rfl, hops,
+      fun hc => hshape ▸ List.mem_append_right _ (List.mem_cons_of_mem _ ((clear_mem_storeOpsOf _ _ _ _).mp hc)),
       storeFacts_reachable S (envs lang) (hE.consts lang) (hE.unicode lang) (hE.tables lang) (hE.stem lang) _ hops⟩
 
 /-- the same for an id known to be live through the shape of the call list -/
@@ -332,11 +346,110 @@ theorem since_storeFacts (S : Sorter) (envs : Nat → Env) (hE : EnvsOK envs) (i
 
 /-! ### records, limit and markers of the store of an id, read off the call list -/
 
-/-- the `(recId, raw title, rating)` triples of the `add_record` calls on `id` in `post`, in call order -/
-def addedOf (id : Nat) (post : List RegOp) : List (Nat × List Nat × Nat) :=
+/-- one call seen by `addedOf`: `add_record` on `id` appends its triple, `clearStore id`
+    (`using_store(id, |s| s.clear())`) forgets everything, any other call changes nothing -/
+def addedStep (id : Nat) (acc : List (Nat × List Nat × Nat)) : RegOp → List (Nat × List Nat × Nat)
+  | .addRecord j recId title rating => if j = id then acc ++ [(recId, title, rating)] else acc
+  | .clearStore j => if j = id then [] else acc
+  | _ => acc
+
+/-- the triples held after the calls `post`, starting from `acc` -/
+def addedFrom (id : Nat) (acc : List (Nat × List Nat × Nat)) (post : List RegOp) : List (Nat × List Nat × Nat) :=
+  post.foldl (addedStep id) acc
+
+/-- the `(recId, raw title, rating)` triples of the `add_record` calls on `id` in `post` made since the last
+    `clearStore id` in `post` (all of them if there is none), in call order: what the store of `id` holds -/
+def addedOf (id : Nat) (post : List RegOp) : List (Nat × List Nat × Nat) := addedFrom id [] post
+
+/-- ALL `add_record` calls on `id` in `post`, in call order (what `addedOf` is when `post` has no `clearStore id`) -/
+def addsOf (id : Nat) (post : List RegOp) : List (Nat × List Nat × Nat) :=
   post.filterMap (fun op => match op with
     | .addRecord j recId title rating => if j = id then some (recId, title, rating) else none
     | _ => none)
+
+theorem addedFrom_append (id : Nat) (acc : List (Nat × List Nat × Nat)) (a b : List RegOp) :
+    addedFrom id acc (a ++ b) = addedFrom id (addedFrom id acc a) b := by
+  simp [addedFrom, List.foldl_append]
+
+theorem addedFrom_cons (id : Nat) (acc : List (Nat × List Nat × Nat)) (op : RegOp) (post : List RegOp) :
+    addedFrom id acc (op :: post) = addedFrom id (addedStep id acc op) post := rfl
+
+/-- a `clearStore id` makes `addedOf` forget everything before it -/
+theorem addedOf_after_clear (id : Nat) (a b : List RegOp) :
+    addedOf id (a ++ RegOp.clearStore id :: b) = addedOf id b := by
+  unfold addedOf
+  rw [addedFrom_append, addedFrom_cons]
+  simp [addedStep]
+
+theorem addedStep_mem (id : Nat) (acc : List (Nat × List Nat × Nat)) (op : RegOp) (x : Nat × List Nat × Nat)
+    (h : x ∈ addedStep id acc op) : x ∈ acc ∨ op = .addRecord id x.1 x.2.1 x.2.2 := by
+  cases op with
+  | addRecord j a b c =>
+    simp only [addedStep] at h
+    split at h
+    · rename_i hj; subst hj
+      rcases List.mem_append.mp h with h | h
+      · exact Or.inl h
+      · simp only [List.mem_singleton] at h; subst h; exact Or.inr rfl
+    · exact Or.inl h
+  | clearStore j =>
+    simp only [addedStep] at h
+    split at h
+    · simp at h
+    · exact Or.inl h
+  | create j l => exact Or.inl h
+  | destroy j => exact Or.inl h
+  | highlightWith j l r => exact Or.inl h
+  | setLimit j n => exact Or.inl h
+  | runSearch j q => exact Or.inl h
+
+theorem addedStep_noClear (id : Nat) (acc : List (Nat × List Nat × Nat)) (op : RegOp) (hop : op ≠ .clearStore id) :
+    addedStep id acc op = acc ++ (addsOf id [op]) := by
+  cases op with
+  | addRecord j a b c => by_cases hj : j = id <;> simp [addedStep, addsOf, hj]
+  | clearStore j =>
+    have : j ≠ id := fun e => hop (by rw [e])
+    simp [addedStep, addsOf, this]
+  | create j l => simp [addedStep, addsOf]
+  | destroy j => simp [addedStep, addsOf]
+  | highlightWith j l r => simp [addedStep, addsOf]
+  | setLimit j n => simp [addedStep, addsOf]
+  | runSearch j q => simp [addedStep, addsOf]
+
+theorem addsOf_cons (id : Nat) (op : RegOp) (post : List RegOp) :
+    addsOf id (op :: post) = addsOf id [op] ++ addsOf id post := by
+  show addsOf id ([op] ++ post) = _
+  simp only [addsOf, List.filterMap_append]
+
+/-- without a `clearStore id` among the calls, `addedFrom` only appends: all the `add_record` calls on `id` -/
+theorem addedFrom_noClear (id : Nat) (post : List RegOp) (hnc : ∀ op ∈ post, op ≠ RegOp.clearStore id) :
+    ∀ acc, addedFrom id acc post = acc ++ addsOf id post := by
+  induction post with
+  | nil => intro acc; simp [addedFrom, addsOf]
+  | cons op post ih =>
+    intro acc
+    rw [addedFrom_cons, ih (fun o ho => hnc o (by simp [ho])), addedStep_noClear id acc op (hnc op (by simp)),
+      List.append_assoc, ← addsOf_cons]
+
+theorem addedOf_noClear (id : Nat) (post : List RegOp) (hnc : ∀ op ∈ post, op ≠ RegOp.clearStore id) :
+    addedOf id post = addsOf id post := by
+  unfold addedOf; rw [addedFrom_noClear id post hnc]; rfl
+
+theorem mem_addsOf (id : Nat) (post : List RegOp) (recId : Nat) (title : List Nat) (rating : Nat) :
+    (recId, title, rating) ∈ addsOf id post ↔ RegOp.addRecord id recId title rating ∈ post := by
+  unfold addsOf
+  rw [List.mem_filterMap]
+  constructor
+  · rintro ⟨op, hm, hop⟩
+    cases op <;> simp only [reduceCtorEq] at hop
+    split at hop
+    · rename_i h; subst h
+      simp only [Option.some.injEq, Prod.mk.injEq] at hop
+      obtain ⟨rfl, rfl, rfl⟩ := hop
+      exact hm
+    · simp at hop
+  · intro hm
+    exact ⟨_, hm, by simp⟩
 
 /-- the limit in force after the calls `post`, starting from `n0`: the argument of the last `set_limit` on `id` -/
 def limitFrom (id : Nat) (n0 : Nat) (post : List RegOp) : Nat :=
@@ -358,92 +471,128 @@ def markersOf (id : Nat) (post : List RegOp) : List Nat × List Nat :=
   markersFrom id (Gen.srcConsts.dividerL, Gen.srcConsts.dividerR) post
 
 theorem run_storeOps_fields (S : Sorter) (K : Consts) (order : List ScoreType) (P : Prog) (E : Env) (id : Nat)
-    (post : List RegOp) : ∀ st0 : Store,
+    (post : List RegOp) : ∀ (st0 : Store) (acc : List (Nat × List Nat × Nat)),
+    st0.records.map Record.data = acc.map (fun x => (x.1, tokenizeRecord P E x.2.1, x.2.2)) →
     ((st0.run S K order (storeOpsOf P E id post)).records.map Record.data =
-        st0.records.map Record.data ++ (addedOf id post).map (fun x => (x.1, tokenizeRecord P E x.2.1, x.2.2))) ∧
+        (addedFrom id acc post).map (fun x => (x.1, tokenizeRecord P E x.2.1, x.2.2))) ∧
     (st0.run S K order (storeOpsOf P E id post)).limit = limitFrom id st0.limit post ∧
     (st0.run S K order (storeOpsOf P E id post)).dividers = markersFrom id st0.dividers post := by
   induction post with
-  | nil => intro st0; simp [storeOpsOf, Store.run, addedOf, limitFrom, markersFrom]
+  | nil => intro st0 acc h0; simpa [storeOpsOf, Store.run, addedFrom, limitFrom, markersFrom] using h0
   | cons op post ih =>
-    intro st0
-    rw [storeOpsOf_cons]
+    intro st0 acc h0
+    rw [storeOpsOf_cons, addedFrom_cons]
     cases op with
-    | create j l => simpa [RegOp.toStoreOp?, addedOf, limitFrom, markersFrom] using ih st0
-    | destroy j => simpa [RegOp.toStoreOp?, addedOf, limitFrom, markersFrom] using ih st0
+    | create j l => simpa [RegOp.toStoreOp?, addedStep, limitFrom, markersFrom] using ih st0 acc h0
+    | destroy j => simpa [RegOp.toStoreOp?, addedStep, limitFrom, markersFrom] using ih st0 acc h0
     | highlightWith j l r =>
       by_cases h : j = id
-      · have := ih (st0.setDividers l r)
-        simpa [RegOp.toStoreOp?, addedOf, limitFrom, markersFrom, h, Store.run, Store.apply, Store.setDividers]
+      · have := ih (st0.setDividers l r) acc h0
+        simpa [RegOp.toStoreOp?, addedStep, limitFrom, markersFrom, h, Store.run, Store.apply, Store.setDividers]
           using this
-      · simpa [RegOp.toStoreOp?, addedOf, limitFrom, markersFrom, h] using ih st0
+      · simpa [RegOp.toStoreOp?, addedStep, limitFrom, markersFrom, h] using ih st0 acc h0
     | addRecord j a b c =>
       by_cases h : j = id
-      · have := ih (st0.add a (tokenizeRecord P E b) c)
-        simpa [RegOp.toStoreOp?, addedOf, limitFrom, markersFrom, h, Store.run, Store.apply, Store.add, Record.data]
+      · have := ih (st0.add a (tokenizeRecord P E b) c) (acc ++ [(a, b, c)])
+          (by simp [Store.add, Record.data, h0])
+        simpa [RegOp.toStoreOp?, addedStep, limitFrom, markersFrom, h, Store.run, Store.apply, Store.add, Record.data]
           using this
-      · simpa [RegOp.toStoreOp?, addedOf, limitFrom, markersFrom, h] using ih st0
+      · simpa [RegOp.toStoreOp?, addedStep, limitFrom, markersFrom, h] using ih st0 acc h0
     | setLimit j n =>
       by_cases h : j = id
-      · have := ih (st0.setLimit n)
-        simpa [RegOp.toStoreOp?, addedOf, limitFrom, markersFrom, h, Store.run, Store.apply, Store.setLimit]
+      · have := ih (st0.setLimit n) acc h0
+        simpa [RegOp.toStoreOp?, addedStep, limitFrom, markersFrom, h, Store.run, Store.apply, Store.setLimit]
           using this
-      · simpa [RegOp.toStoreOp?, addedOf, limitFrom, markersFrom, h] using ih st0
+      · simpa [RegOp.toStoreOp?, addedStep, limitFrom, markersFrom, h] using ih st0 acc h0
     | runSearch j q =>
       by_cases h : j = id
-      · have := ih (st0.searchM S K order (tokenizeQuery P E q)).2
-        obtain ⟨_, h2, h3, h4, _⟩ := searchM_snd_fields S K order st0 (tokenizeQuery P E q)
-        rw [h2, h3, h4] at this
-        simpa [RegOp.toStoreOp?, addedOf, limitFrom, markersFrom, h, Store.run, Store.apply] using this
-      · simpa [RegOp.toStoreOp?, addedOf, limitFrom, markersFrom, h] using ih st0
+      · obtain ⟨_, h2, h3, h4, _⟩ := searchM_snd_fields S K order st0 (tokenizeQuery P E q)
+        have := ih (st0.searchM S K order (tokenizeQuery P E q)).2 acc (by rw [h2]; exact h0)
+        rw [h3, h4] at this
+        simpa [RegOp.toStoreOp?, addedStep, limitFrom, markersFrom, h, Store.run, Store.apply] using this
+      · simpa [RegOp.toStoreOp?, addedStep, limitFrom, markersFrom, h] using ih st0 acc h0
+    | clearStore j =>
+      by_cases h : j = id
+      · have := ih st0.clear [] (by simp [Store.clear])
+        simpa [RegOp.toStoreOp?, addedStep, limitFrom, markersFrom, h, Store.run, Store.apply, Store.clear]
+          using this
+      · simpa [RegOp.toStoreOp?, addedStep, limitFrom, markersFrom, h] using ih st0 acc h0
 
 /-- **records, limit and markers of the store of `id`** after `create id lang` followed by the calls `post`:
-    the records are the `add_record` calls on `id` in call order (titles tokenised for `lang`), the limit is that of
-    the last `set_limit` on `id` (default 10), the markers those of the last `highlight_with` on `id`
-    (default `[` `]`) -/
+    the records are the `add_record` calls on `id` made since the last `clearStore id`, in call order (titles
+    tokenised for `lang`), the limit is that of the last `set_limit` on `id` (default 10), the markers those of the
+    last `highlight_with` on `id` (default `[` `]`); a `clearStore id` changes neither limit nor markers -/
 theorem store_fields (S : Sorter) (E : Env) (id : Nat) (post : List RegOp) :
     ((runOne S Gen.srcProg (storeOpsOf Gen.srcProg E id post)).records.map Record.data =
         (addedOf id post).map (fun x => (x.1, tokenizeRecord Gen.srcProg E x.2.1, x.2.2))) ∧
     (runOne S Gen.srcProg (storeOpsOf Gen.srcProg E id post)).limit = limitOf id post ∧
     (runOne S Gen.srcProg (storeOpsOf Gen.srcProg E id post)).dividers = markersOf id post := by
-  obtain ⟨h1, h2, h3⟩ :=
-    run_storeOps_fields S Gen.srcConsts Gen.srcScoreOrder Gen.srcProg E id post (Store.new Gen.srcConsts)
-  have e : (Store.new Gen.srcConsts).records.map Record.data = [] := rfl
-  rw [e, List.nil_append] at h1
-  exact ⟨h1, h2, h3⟩
+  exact run_storeOps_fields S Gen.srcConsts Gen.srcScoreOrder Gen.srcProg E id post (Store.new Gen.srcConsts) [] rfl
 
 theorem store_records_length (S : Sorter) (E : Env) (id : Nat) (post : List RegOp) :
     (runOne S Gen.srcProg (storeOpsOf Gen.srcProg E id post)).records.length = (addedOf id post).length := by
   have := congrArg List.length (store_fields S E id post).1
   simpa using this
 
-theorem mem_addedOf (id : Nat) (post : List RegOp) (recId : Nat) (title : List Nat) (rating : Nat) :
-    (recId, title, rating) ∈ addedOf id post ↔ RegOp.addRecord id recId title rating ∈ post := by
-  unfold addedOf
-  rw [List.mem_filterMap]
-  constructor
-  · rintro ⟨op, hm, hop⟩
-    cases op <;> simp only [reduceCtorEq] at hop
-    split at hop
-    · rename_i h; subst h
-      simp only [Option.some.injEq, Prod.mk.injEq] at hop
-      obtain ⟨rfl, rfl, rfl⟩ := hop
-      exact hm
-    · simp at hop
-  · intro hm
-    exact ⟨_, hm, by simp⟩
+theorem mem_addedFrom (id : Nat) (post : List RegOp) (x : Nat × List Nat × Nat) :
+    ∀ acc, x ∈ addedFrom id acc post →
+      (x ∈ acc ∧ ∀ op ∈ post, op ≠ RegOp.clearStore id) ∨
+      ∃ a b, post = a ++ RegOp.addRecord id x.1 x.2.1 x.2.2 :: b ∧ ∀ op ∈ b, op ≠ RegOp.clearStore id := by
+  induction post with
+  | nil => intro acc h; exact Or.inl ⟨h, by simp⟩
+  | cons op post ih =>
+    intro acc h
+    rw [addedFrom_cons] at h
+    rcases ih _ h with ⟨h1, h2⟩ | ⟨a, b, rfl, hb⟩
+    · by_cases hc : op = RegOp.clearStore id
+      · subst hc; simp [addedStep] at h1
+      · rcases addedStep_mem id acc op x h1 with h1 | h1
+        · refine Or.inl ⟨h1, ?_⟩
+          intro o ho
+          rcases List.mem_cons.mp ho with ho | ho
+          · subst ho; exact hc
+          · exact h2 o ho
+        · exact Or.inr ⟨[], post, by simp [h1], h2⟩
+    · exact Or.inr ⟨op :: a, b, by simp, hb⟩
 
-/-- an `add_record id recId title rating` call among `post` put a record with that id and the tokenised title into
-    the store, at some position -/
+/-- **what `addedOf` holds**: the triple of an `add_record` call on `id` after which no `clearStore id` was made -/
+theorem mem_addedOf (id : Nat) (post : List RegOp) (recId : Nat) (title : List Nat) (rating : Nat) :
+    (recId, title, rating) ∈ addedOf id post ↔
+      ∃ a b, post = a ++ RegOp.addRecord id recId title rating :: b ∧ ∀ op ∈ b, op ≠ RegOp.clearStore id := by
+  constructor
+  · intro h
+    rcases mem_addedFrom id post (recId, title, rating) [] h with ⟨h, _⟩ | h
+    · simp at h
+    · exact h
+  · rintro ⟨a, b, rfl, hb⟩
+    unfold addedOf
+    rw [addedFrom_append, addedFrom_cons, addedFrom_noClear id b hb]
+    simp [addedStep]
+
+/-- every held triple comes from an `add_record` call on `id` -/
+theorem mem_addedOf_sub (id : Nat) (post : List RegOp) (recId : Nat) (title : List Nat) (rating : Nat)
+    (h : (recId, title, rating) ∈ addedOf id post) : RegOp.addRecord id recId title rating ∈ post := by
+  obtain ⟨a, b, rfl, _⟩ := (mem_addedOf id post recId title rating).mp h
+  simp
+
+/-- without a `clearStore id` among the calls: exactly the `add_record` calls on `id` -/
+theorem mem_addedOf_noClear (id : Nat) (post : List RegOp) (hnc : ∀ op ∈ post, op ≠ RegOp.clearStore id)
+    (recId : Nat) (title : List Nat) (rating : Nat) :
+    (recId, title, rating) ∈ addedOf id post ↔ RegOp.addRecord id recId title rating ∈ post := by
+  rw [addedOf_noClear id post hnc, mem_addsOf]
+
+/-- an `add_record id recId title rating` call among `post` that was not followed by a `clearStore id`
+    (`(recId, title, rating) ∈ addedOf id post`, see `mem_addedOf`) put a record with that id and the tokenised
+    title into the store, at some position -/
 theorem store_record_of_add (S : Sorter) (E : Env) (id : Nat) (post : List RegOp) (recId : Nat) (title : List Nat)
-    (rating : Nat) (h : RegOp.addRecord id recId title rating ∈ post) :
+    (rating : Nat) (h : (recId, title, rating) ∈ addedOf id post) :
     ∃ (ix : Nat) (r : Record), (runOne S Gen.srcProg (storeOpsOf Gen.srcProg E id post)).records[ix]? = some r ∧
       r.id = recId ∧
       r.title = tokenizeRecord Gen.srcProg E title ∧ r.rating = rating := by
   have hm : (recId, tokenizeRecord Gen.srcProg E title, rating) ∈
       (runOne S Gen.srcProg (storeOpsOf Gen.srcProg E id post)).records.map Record.data := by
     rw [(store_fields S E id post).1]
-    exact List.mem_map.mpr ⟨(recId, title, rating), (mem_addedOf id post recId title rating).mpr h, rfl⟩
+    exact List.mem_map.mpr ⟨(recId, title, rating), h, rfl⟩
   obtain ⟨r, hr, hd⟩ := List.mem_map.mp hm
   obtain ⟨ix, hix⟩ := List.getElem?_of_mem hr
   simp only [Record.data, Prod.mk.injEq] at hd
@@ -460,7 +609,7 @@ theorem add_of_store_record (S : Sorter) (E : Env) (id : Nat) (post : List RegOp
   obtain ⟨a, b, c⟩ := x
   simp only [Record.data, Prod.mk.injEq] at hd
   obtain ⟨rfl, hd2, rfl⟩ := hd
-  exact ⟨b, (mem_addedOf id post _ b _).mp hx, hd2.symm⟩
+  exact ⟨b, mem_addedOf_sub id post _ b _ hx, hd2.symm⟩
 
 /-! ### the result buffer -/
 
@@ -486,6 +635,7 @@ theorem step_quiet_results (S : Sorter) (P : Prog) (envs : Nat → Env) (g : Reg
     | highlightWith i l r => rw [C20_results_stable S P envs g _ (Or.inr (Or.inr ⟨i, l, r, rfl⟩))]
     | addRecord i a b c => rw [C20_results_stable S P envs g _ (Or.inl ⟨i, a, b, c, rfl⟩)]
     | setLimit i n => rw [C20_results_stable S P envs g _ (Or.inr (Or.inl ⟨i, n, rfl⟩))]
+    | clearStore i => rw [(C20_clear_isolated S P envs g i).2.1]
   · exact (step_other S P envs g op j ht).2
 
 theorem run_quiet_results (S : Sorter) (P : Prog) (envs : Nat → Env) (g : Registry) (ops' : List RegOp) (j : Nat)
